@@ -41,10 +41,14 @@ func historyOracle(cfg *config) ([]failure, []string, map[string]interface{}) {
 			break
 		}
 		next := -1
-		if ee, ok := err.(*exec.ExitError); ok && ee.ExitCode() == 3 {
+		if ee, ok := err.(*exec.ExitError); ok && (ee.ExitCode() >= 3 && ee.ExitCode() <= 6) {
+			// 3: restart after an abandoned call; 4/5/6: the run blocked in a
+			// primitive (reported by the main exploration); logging goes on after it
 			for _, line := range strings.Split(string(b), "\n") {
-				if strings.HasPrefix(line, "RESTART ") {
-					fmt.Sscanf(line[8:], "%d", &next)
+				for _, pre := range []string{"RESTART ", "STALL ", "UNBOUNDED-WAIT "} {
+					if strings.HasPrefix(line, pre) {
+						fmt.Sscanf(line[len(pre):], "%d", &next)
+					}
 				}
 			}
 		}
